@@ -211,7 +211,7 @@ def mpc2system(mpc: dict, system) -> bool:
         if pd != 0 or qd != 0:
             system.add('PQ', bus=idx, name='PQ ' + str(idx), Vn=baseKV, p0=pd, q0=qd)
         if gs or bs:
-            system.add('Shunt', bus=idx, name='Shunt ' + str(idx), Vn=baseKV, g=gs, b=bs)
+            system.add('Shunt', bus=idx, name='Shunt ' + str(idx), Vn=baseKV, Sn=base_mva, g=gs, b=bs)
 
     gen_idx = 0
     for data in mpc['gen']:
@@ -282,7 +282,7 @@ def mpc2system(mpc: dict, system) -> bool:
         vf = system.Bus.Vn.v[system.Bus.idx2uid(fbus)]
         vt = system.Bus.Vn.v[system.Bus.idx2uid(tbus)]
         system.add('Line', u=status, name=f'Line {fbus:.0f}-{tbus:.0f}',
-                   Vn1=vf, Vn2=vt,
+                   Vn1=vf, Vn2=vt, Sn=base_mva,
                    bus1=fbus, bus2=tbus,
                    r=r, x=x, b=b,
                    trans=tf, tap=tap_raio, phi=phase_shift,
